@@ -22,6 +22,11 @@ def model_path(real_path):
     return out
 
 
+def canon_dex(d):
+    import json
+    return json.dumps(d or [], sort_keys=True)
+
+
 def convert(text, carried=True):
     mod = snaxrun.parse(text)
     f = ac.find_func(mod)
@@ -86,6 +91,7 @@ class C01(Prop):
         steps = []
         prev_after = None
         chain_ok = True
+        dexecs = []
         for (name, path, before, after, *_rest) in log:
             try:
                 mb, _, cb = convert(before)
@@ -105,7 +111,18 @@ class C01(Prop):
                           "points": ac.real_inference_at_points(cb), "after": ca.program()})
         if log and log[-1][3].strip() != out.strip() and snaxrun.text(snaxrun.parse(out)).strip() != snaxrun.text(snaxrun.parse(log[-1][3])).strip():
             chain_ok = False
-        return {"steps": steps, "chain_ok": chain_ok, "n_steps": len(steps)}
+        # the desugaring of carried values is validated by execution: the model's CSR machine on the desugared input and output
+        # of the pass against the harness machine on the real IR
+        if steps and (steps[0]["carried"] or steps[-1]["carried"]):
+            for which, text_ in ((0, log[0][2]), (1, log[-1][3])):
+                m_, f_, c_ = convert(text_)
+                for args in ac.executions(random.Random(case["xseed"] + which), 3):
+                    try:
+                        tr = ac.run_func(f_, args, calltag=c_.calltag, universe=c_.universe())
+                    except ac.Undefined:
+                        continue
+                    dexecs.append({"prog": c_.program(), "args": args, "trace": c_.trace_json(tr)})
+        return {"steps": steps, "chain_ok": chain_ok, "n_steps": len(steps), "dexecs": dexecs}
 
     def requests(self, case, impl_out):
         if "steps" not in impl_out:
@@ -114,6 +131,9 @@ class C01(Prop):
         for s in impl_out["steps"]:
             reqs.append({"fn": "c01.step", "args": {"rule": s["rule"], "path": s["path"], "j": s["j"], "body": s["before"]["body"],
                                                     "fields": s["before"]["fields"]}})
+        for e in impl_out.get("dexecs", []):
+            reqs.append({"fn": "c07.exec", "args": {"body": e["prog"]["body"], "fields": e["prog"]["fields"], "args": e["args"],
+                                                    "init": ac.INIT}})
         return reqs
 
     def model(self, case, answers, impl_out):
@@ -145,13 +165,19 @@ class C01(Prop):
             ms["after"] = dict(s["after"], body=r["after"])
             ms["points"] = [sorted(p) for p in r["points"]]
             steps.append(ms)
-        return {"steps": steps, "chain_ok": True, "n_steps": len(steps)}
+        dex = []
+        for e, a in zip(impl_out.get("dexecs", []), answers[len(impl_out["steps"]):]):
+            dex.append(dict(e, trace=a.get("ok", a)))
+            self.step_cov["desugared_programs_executed_by_model"] += 1
+        return {"steps": steps, "chain_ok": True, "n_steps": len(steps), "dexecs": dex}
 
     def compare(self, case, impl_out, model_out):
         if "steps" not in impl_out or "steps" not in model_out:
             return None if impl_out == model_out else "outputs differ"
         if not impl_out["chain_ok"]:
             return "logged rewrite steps do not chain up to the pass output"
+        if canon_dex(impl_out.get("dexecs")) != canon_dex(model_out.get("dexecs")):
+            return "the model's execution of a desugared program (carried values) differs from the execution of the real IR"
         for k, (a, b) in enumerate(zip(impl_out["steps"], model_out["steps"])):
             if a["points"] != b["points"]:
                 return f"step {k} ({a['rule']}): infer_state_of differs from the model's facts in the IR before the step"
